@@ -16,6 +16,7 @@ type Pub struct {
 	Subject string
 	Reply   string
 	Data    []byte
+	Failed  bool // the publish was refused by the connection (FailPub)
 }
 
 // Sub is one subscription.
@@ -36,6 +37,7 @@ type Conn struct {
 	nsubs       int
 	OnPub       func(Pub)            // called outside the lock, in publish order per goroutine
 	OnSubscribe func(subject string) // called before each subscription is recorded
+	FailPub     func(subject string) bool // when it returns true the publish is recorded as an attempt and fails
 	cond        *sync.Cond
 	sendMu      sync.RWMutex // held (shared) while delivering; Close waits for deliveries in flight
 	noSend      bool
@@ -84,6 +86,13 @@ func (c *Conn) PublishRequest(subject, reply string, payload []byte) error {
 	if c.Closed > 0 {
 		c.mu.Unlock()
 		return errors.New("nats: connection closed")
+	}
+	if f := c.FailPub; f != nil && f(subject) {
+		p.Failed = true
+		c.Pubs = append(c.Pubs, p)
+		c.cond.Broadcast()
+		c.mu.Unlock()
+		return errors.New("nats: maximum payload exceeded")
 	}
 	c.Pubs = append(c.Pubs, p)
 	cb := c.OnPub
